@@ -69,6 +69,9 @@ theorem runBulk_exact {σ₁ σ₂ : Type} {I₁ : InputOps σ₁} {I₂ : Input
     (h : ExactOps I₁ I₂ R) (sz c : Nat) : ExactSim R (runBulk I₁ sz c) (runBulk I₂ sz c) := by
   intro s₁ s₂ hr
   unfold runBulk
+  by_cases hg : sz > maxPrealloc
+  · simp [hg, hr]
+  simp only [hg, if_false]
   by_cases hov : c * sz > usizeMax
   · simp [hov, hr]
   · simp only [hov, if_false]
@@ -415,6 +418,7 @@ theorem chunkLoop_lax {σ₁ σ₂ : Type} {I₁ : InputOps σ₁} {I₂ : Input
 
 theorem runBulk_eq {σ} (I : InputOps σ) (sz c : Nat) :
     runBulk I sz c =
+      if sz > maxPrealloc then (fun s => (.panic, s)) else
       if c * sz > usizeMax then (fun s => (.err, s)) else
         andThen I.remainingLen (fun o =>
           match o with
@@ -423,6 +427,9 @@ theorem runBulk_eq {σ} (I : InputOps σ) (sz c : Nat) :
           | none => chunkLoop I sz (if sz = 0 then usizeMax else maxPrealloc / sz) c c []) := by
   funext s
   unfold runBulk
+  by_cases hg : sz > maxPrealloc
+  · simp [hg]
+  simp only [hg, if_false]
   by_cases hov : c * sz > usizeMax
   · simp [hov]
   · simp only [hov, if_false, andThen]
@@ -440,6 +447,10 @@ theorem runBulk_lax {σ₁ σ₂ : Type} {I₁ : InputOps σ₁} {I₂ : InputOp
     (h : LaxPrims I₁ I₂ R) (sz c : Nat) :
     LaxSim R (runBulk I₁ sz c) (runBulk I₂ sz c) ∧ Stable R (runBulk I₁ sz c) := by
   rw [runBulk_eq, runBulk_eq]
+  by_cases hg : sz > maxPrealloc
+  · simp only [hg, if_true]
+    exact ⟨laxSim_pure _, stable_pure _⟩
+  simp only [hg, if_false]
   by_cases hov : c * sz > usizeMax
   · simp only [hov, if_true]
     exact ⟨laxSim_pure _, stable_pure _⟩
